@@ -125,6 +125,32 @@ def refs_of(op) -> list[int]:
     return out
 
 
+def closure_chain(history: list, j: int) -> list:
+    need: set[int] = set()
+
+    def visit(i: int) -> None:
+        if i in need:
+            return
+        need.add(i)
+        for r in refs_of(history[i]):
+            visit(r)
+
+    visit(j)
+    order = sorted(need)
+    renum = {old: new for new, old in enumerate(order)}
+
+    def remap(x):
+        if isinstance(x, dict):
+            if "ref" in x and len(x) == 1:
+                return {"ref": renum[x["ref"]]}
+            return {k: remap(v) for k, v in x.items()}
+        if isinstance(x, list):
+            return [remap(y) for y in x]
+        return x
+
+    return [[history[i][0], *remap(history[i][1:])] for i in order]
+
+
 def execute(op, objs: list | None = None):
     """Execute one op.  Returns (outcome, produced_object_or_None)."""
     schwifty, checksum, registry = _lib()
